@@ -21,8 +21,10 @@ from common import storage_of
 
 logging.getLogger('labtech').setLevel(logging.CRITICAL)
 
-MAXPAR = [None, None, 1, 1, 2, 2, 3, 3, None, None, None, None]          # per type index of U.SCHED_TYPES
-CACHEABLE = [True, False] * 4 + [True, True, True, True]
+import lv_universe3 as U3  # noqa
+SCHED = list(U.SCHED_TYPES) + [U3.TN1]       # index 12: same class name as index 3, another module
+MAXPAR = [None, None, 1, 1, 2, 2, 3, 3, None, None, None, None, 1]          # per type index of SCHED
+CACHEABLE = [True, False] * 4 + [True, True, True, True, False]
 
 
 # ------------------------------------------------------------------ generation
@@ -84,6 +86,10 @@ def gen_case(rng, *, max_n=8, p_fail=0.15, runner='l1', allow_dups=True, ntypes=
     elif r < 0.45:
         # everything on a max_parallel=2 or 3 type, cached or not (cache=None types share one cache key), mostly independent tasks
         types = [rng.choice([[4], [5], [6], [7], [4, 5], [6, 7]][rng.randrange(6)]) for _ in range(n)]
+        shape = rng.choice(['fan', 'fan', shape])
+    elif r < 0.53:
+        # two task types with the same class name (different modules), each limited to one task at a time
+        types = [rng.choice([3, 12]) for _ in range(n)]
         shape = rng.choice(['fan', 'fan', shape])
     specs, reads, behs = [], [], []
     for t in range(n):
@@ -223,7 +229,7 @@ class Built:
 
     def _make(self, t, deps):
         case = self.case
-        cls = U.SCHED_TYPES[case['types'][t]]
+        cls = SCHED[case['types'][t]]
         beh = case['behs'][t]
         if cls is U.TRw:
             beh = f' {beh.upper()} '          # spelt non-canonically; the type's post_init canonicalises it
